@@ -7,7 +7,9 @@ package main
 // with the standard library only, for the families whose meaning is crisp: map, match
 // (literal = exact, case sensitive; regexp; first match wins; fallback value / input), string
 // TrimPrefix / TrimSuffix / Convert ToUpper, ToLower / Regexp group extraction, math Multiply on
-// integers. Judged only when the documentation determines a RESULT (well-formed configuration,
+// integers, convert between string / int64 / float64 / bool in the default format (where the
+// documentation REJECTS an input - a string that is not a decimal integer, say - the real
+// transform must fail too). Judged only when the documentation determines a RESULT (well-formed configuration,
 // input of the documented type): the real transform must then succeed with that result; which
 // error a transform without a documented result reports is the model's business. The real answer is a function of (transform, input) alone - so this monitor also sees
 // state that a long-lived process carries from one call to the next (memo tables keyed too coarsely).
@@ -17,6 +19,7 @@ import (
 	"fmt"
 	"reflect"
 	"regexp"
+	"strconv"
 	"strings"
 )
 
@@ -130,6 +133,8 @@ func c10KnownAnswer(t c10Xf, in any) (any, bool) {
 				return groups[g], true
 			}
 		}
+	case "convert":
+		return c10KnownConvert(t, in)
 	case "math":
 		i, ok := in.(int64)
 		if !ok || t.Math == nil || t.Math.Multiply == nil || (t.Math.Type != "" && t.Math.Type != "Multiply") {
@@ -140,8 +145,92 @@ func c10KnownAnswer(t c10Xf, in any) (any, bool) {
 	return nil, false
 }
 
+// c10KnownConvert: the default (format none) conversions between string, int64, float64 and bool
+// as the API documents them: strings are parsed with strconv.ParseInt(s, 10, 64) - DECIMAL, no
+// base prefix, no underscores, no surrounding whitespace -, strconv.ParseFloat(s, 64),
+// strconv.ParseBool; numbers and booleans are printed with FormatInt(i, 10), FormatFloat(f, 'f',
+// -1, 64), FormatBool; a number is true iff it is 1; true is 1.
+func c10KnownConvert(t c10Xf, in any) (any, bool) {
+	v, fails, ok := c10ConvertRef(t, in)
+	if !ok || fails {
+		return nil, false
+	}
+	return v, true
+}
+
+// c10ConvertRef: (result, the documentation makes it an error, the documentation decides).
+func c10ConvertRef(t c10Xf, in any) (any, bool, bool) {
+	if t.Type != "convert" || t.Convert == nil || (t.Convert.Format != nil && *t.Convert.Format != "none") {
+		return nil, false, false
+	}
+	to := t.Convert.ToType
+	if to == "int" {
+		to = "int64"
+	}
+	switch x := in.(type) {
+	case string:
+		switch to {
+		case "string":
+			return x, false, true
+		case "int64":
+			i, err := strconv.ParseInt(x, 10, 64)
+			return i, err != nil, true
+		case "float64":
+			f, err := strconv.ParseFloat(x, 64)
+			return f, err != nil, true
+		case "bool":
+			b, err := strconv.ParseBool(x)
+			return b, err != nil, true
+		}
+	case int64:
+		switch to {
+		case "int64":
+			return x, false, true
+		case "string":
+			return strconv.FormatInt(x, 10), false, true
+		case "float64":
+			return float64(x), false, true
+		case "bool":
+			return x == 1, false, true
+		}
+	case float64:
+		switch to {
+		case "float64":
+			return x, false, true
+		case "string":
+			return strconv.FormatFloat(x, 'f', -1, 64), false, true
+		case "bool":
+			return x == 1, false, true
+		}
+	case bool:
+		switch to {
+		case "bool":
+			return x, false, true
+		case "string":
+			return strconv.FormatBool(x), false, true
+		case "int64":
+			if x {
+				return int64(1), false, true
+			}
+			return int64(0), false, true
+		case "float64":
+			if x {
+				return float64(1), false, true
+			}
+			return float64(0), false, true
+		}
+	}
+	return nil, false, false
+}
+
 func c10KnownMonitor(t c10Xf, in, out any, failed string, mons *[]Mon) {
 	if mons == nil {
+		return
+	}
+	if _, fails, decided := c10ConvertRef(t, in); decided && fails {
+		if failed == "" {
+			*mons = append(*mons, Mon{Sig: "C10:transform-contradicts-documentation", Why: c10Short(fmt.Sprintf("transform %s of %s gave %s, the documented conversion rejects the input", mustJSON(t), mustJSON(c10Enc(in)), mustJSON(c10Enc(out))))})
+		}
 		return
 	}
 	want, ok := c10KnownAnswer(t, in)
